@@ -7,7 +7,21 @@ flag combinations, file-system pre-states and DB pre-states, two ways:
   B. `DoitMain(ModuleTaskLoader(ns)).run(['clean', flags..., names...])` in-process, tasks created by
      the real loader from generated dicts (groups/sub-tasks via basename/name), options parsed by the
      real command line parser, `default_tasks`/`dep_file`/`backend` through DOIT_CONFIG.
-and the observation is compared with Model/Clean.v (`clean_execute`) evaluated inside Coq.
+and the observation is compared with Model/Clean.v (`clean_execute_rd`) evaluated inside Coq.
+
+History of the DB session (spec['pre'], spec['lookups']): the same `Dependency` object that `clean
+--forget` removes records from may already have been used in the process -- by load-time code of the
+dodo file and by the clean actions themselves, which ask `doit.Globals.dep_manager` for the state saved
+by the last run (doc/globals.rst).  So a record can be, when it is forgotten: untouched (only in the
+file), looked up (decoded in the backend's cache), saved in this session (dirty, with or without an
+older copy in the file), or absent; and look-ups can come after the record was forgotten.  Generated:
+  pre      operations done through Globals.dep_manager before the command selects anything (mode B: by
+           the task-creator at load time; mode A: by the harness on the dep_manager it hands to Clean):
+           look-ups, and (never with --dry-run) 'set' = a full record saved for a task
+  lookups  per task and clean action: the look-ups [op, task] it makes when it runs
+Look-ups of clean actions are modelled (Clean.v section WithReads: found iff saved and not yet forgotten);
+the values they return, the effect of `pre` and the content of the records left in the DB are judged by
+the oracle below from the declared inputs.
 
 Input of the model = the task table read from the real objects after the real `TaskControl` ran on an
 identically built second copy (name -> id by list position; task_dep, setup_tasks, subtask_of); the
@@ -21,17 +35,24 @@ Observation (list of ints, same layout as Clean.enc_res):
           2 t i          "<t> - executing '<action>'"     (i-th announcement of this task)
           3 t i d        clean action i of t ran; d = 2 no dryrun parameter, else the flag it received
           4|5|6 t path   "removing file" | "removing dir" | "cannot remove (it is not empty)"
+          7 t i u b      clean action i of t asked doit.Globals.dep_manager for the saved state of task u
+                         (get_result | get_values | get_value | _in); b = a record was found
   path  = component ids, -2        fs entry = kind(0 file,1 dir), path   (sorted by components)
 """
-import fnmatch as _fnmatch, io, os, re, shutil, sys
+import fnmatch as _fnmatch, io, json, os, re, shutil, sys
 import common
 from common import Outcome
 
 PRE = ('From DoitV Require Import Base Clean.\nOpen Scope Z_scope.\n'
        'Definition T := Build_task.\n'
+       'Definition rdf (tab : list (N * nat * list N)) (t : N) (i : nat) : list N :=\n'
+       '  match find (fun e => N.eqb (fst (fst e)) t && Nat.eqb (snd (fst e)) i)%bool tab with Some e => snd e | None => [] end.\n'
        'Definition fm (tab : list (list N)) (n : N) (p : N) : bool := mem n (nth (N.to_nat p) tab []).\n')
 
 STALE = 999          # id of a DB record that belongs to no task
+NOREC = 996          # id of a name that is no task and has no record (unless `pre` saves one)
+SPECIAL = {'stale-record': STALE, 'no-such-record': NOREC}
+READ_OPS = ['result', 'values', 'value', 'in']
 COMP = 'n%02d'
 
 
@@ -65,7 +86,7 @@ def gen_fs(rng):
     return ents, sorted(missing)
 
 
-def gen_case(rng, mode):
+def gen_case(rng, mode, dense=False):
     """returns a json-able spec"""
     names, kind, group_of = [], {}, {}
     for i in range(rng.choice([1, 2, 3, 3, 4, 5])):
@@ -99,7 +120,8 @@ def gen_case(rng, mode):
             gs = [g for g in names if kind[g] == 'group' and rank[g] < rank[n] and group_of.get(n) != g]
             if gs:
                 td.append(rng.choice(gs) + ':*')
-        ck = rng.choices(['none', 'true', 'act', 'act_dry', 'two', 'cmd', 'dry_plain', 'dry_plain_dry'], weights=[12, 34, 22, 8, 12, 1, 7, 4])[0]
+        ck = rng.choices(['none', 'true', 'act', 'act_dry', 'two', 'cmd', 'dry_plain', 'dry_plain_dry'],
+                         weights=[6, 10, 40, 12, 16, 1, 9, 6] if dense else [12, 34, 22, 8, 12, 1, 7, 4])[0]
         tasks[n] = dict(name=n, kind=kind[n], group=group_of.get(n), task_dep=td, setup=su, clean=ck,
                         targets=[], file_dep=[])
     for p in universe:
@@ -156,9 +178,43 @@ def gen_case(rng, mode):
     flags = dict(dryrun=rng.random() < 0.3, cleandep=rng.random() < 0.4, cleanall=rng.random() < 0.12,
                  forget=rng.random() < 0.45)
     db = [n for n in names if rng.random() < 0.7]
-    return dict(mode=mode, order=order, tasks=tasks, fs=[[list(p), k] for p, k in sorted(ents.items())],
+    spec = dict(mode=mode, order=order, tasks=tasks, fs=[[list(p), k] for p, k in sorted(ents.items())],
                 pos=pos, default=default, flags=flags, db=db, stale=rng.random() < 0.5,
                 backend=rng.choice(['json', 'dbm', 'sqlite3']))
+    if dense:                                              # the part about the DB session: forget, many records
+        spec['flags']['forget'] = rng.random() < 0.9
+        spec['flags']['dryrun'] = rng.random() < 0.12
+        spec['db'] = [n for n in names if rng.random() < 0.85]
+    gen_session(rng, spec, dense)
+    return spec
+
+
+def gen_session(rng, spec, dense):
+    """what happened to the DB session before / happens during the command: spec['pre'], spec['lookups']"""
+    names = list(spec['order'])
+
+    def target(own):
+        r = rng.random()
+        if own is not None and r < 0.4:
+            return own
+        return rng.choice(names) if r < 0.92 else rng.choice(sorted(SPECIAL))
+    lookups = {}
+    if dense or rng.random() < 0.5:
+        for n in names:
+            na = N_PYACTIONS[spec['tasks'][n]['clean']]
+            if na and (dense or rng.random() < 0.6):
+                lookups[n] = [[[rng.choice(READ_OPS), target(n)] for _ in range(rng.choice([0, 1, 1, 2, 3]))]
+                              for _ in range(na)]
+    pre = []
+    if rng.random() < (0.7 if dense else 0.35):
+        for _ in range(rng.choice([1, 1, 2, 3, 4] if not dense else [1, 2, 3, 4, 6])):
+            if not spec['flags']['dryrun'] and rng.random() < 0.3:
+                fresh = [n for n in names if n not in spec['db']]      # a record that exists only in this session
+                pre.append(['set', rng.choice(fresh) if fresh and rng.random() < 0.5 else target(None),
+                            rng.randrange(1000, 2000)])
+            else:
+                pre.append([rng.choice(READ_OPS), target(None)])
+    spec['lookups'], spec['pre'] = lookups, pre
 
 
 # ------------------------------------------------------------------ building the real objects
@@ -183,18 +239,54 @@ def path_str(root, comps):
     return os.path.join(root, *[comp_str(c) for c in comps])
 
 
-def clean_value(t, log):
+def do_op(dm, op):
+    """one operation on the dependency manager -> what came back (json-able)"""
+    try:
+        if op[0] == 'result':
+            return ['ok', dm.get_result(op[1])]
+        if op[0] == 'values':
+            return ['ok', dm.get_values(op[1])]
+        if op[0] == 'value':
+            return ['ok', dm.get_value(op[1], 'v')]
+        if op[0] == 'in':
+            return ['ok', bool(dm._in(op[1]))]
+        if op[0] == 'set':                       # a full record, as Dependency.save_success writes one
+            for k, v in record_of(op[2]).items():
+                dm._set(op[1], k, v)
+            return ['ok', None]
+        raise ValueError(op)
+    except BaseException as e:  # noqa
+        return ['exc', '%s: %s' % (type(e).__name__, e)]
+
+
+def record_of(k):
+    return {'checker:': 'MD5Checker', '_values_:': {'v': k}, 'result:': {'r': k}}
+
+
+def lookup_now(log, n, i, reads):
+    """what a clean action (or load-time code: n = None) does: ask doit.Globals.dep_manager"""
+    import doit
+    dm = doit.Globals.dep_manager
+    for j, op in enumerate(reads):
+        log.append(('op', n, i, j, list(op), do_op(dm, op)))
+
+
+def clean_value(t, log, lookups=None):
     ck, n = t['clean'], t['name']
+    reads = (lookups or {}).get(n) or []
+    rd = lambda i: reads[i] if i < len(reads) else []
 
     def plain(i, ret=None):
         def c():
             log.append(('exec', n, i, None))
+            lookup_now(log, n, i, rd(i))
             return ret
         return c
 
     def dry(i):
         def c(dryrun):
             log.append(('exec', n, i, dryrun))
+            lookup_now(log, n, i, rd(i))
         return c
     if ck == 'none':
         return []
@@ -219,10 +311,11 @@ CLEAN_MODEL = {'none': 'Some []', 'true': 'None', 'act': 'Some [false]', 'act_dr
                'two': 'Some [false; true]', 'cmd': 'Some [false]', 'dry_plain': 'Some [true; false]',
                'dry_plain_dry': 'Some [true; false; true]'}
 N_ANNOUNCE = {'none': 0, 'true': 0, 'act': 1, 'act_dry': 1, 'two': 2, 'cmd': 1, 'dry_plain': 2, 'dry_plain_dry': 3}
+N_PYACTIONS = dict(N_ANNOUNCE, cmd=0)          # clean actions that are python callables (they can look at the DB)
 
 
-def task_kwargs(t, root, log):
-    return dict(task_dep=list(t['task_dep']), setup=list(t['setup']), clean=clean_value(t, log),
+def task_kwargs(t, root, log, lookups=None):
+    return dict(task_dep=list(t['task_dep']), setup=list(t['setup']), clean=clean_value(t, log, lookups),
                 targets=[path_str(root, p) for p in t['targets']],
                 file_dep=[path_str(root, p) for p in t['file_dep']])
 
@@ -232,15 +325,18 @@ def build_A(spec, root, log):
     res = []
     for n in spec['order']:
         t = spec['tasks'][n]
-        res.append(Task(n, None, subtask_of=t['group'], has_subtask=(t['kind'] == 'group'), **task_kwargs(t, root, log)))
+        res.append(Task(n, None, subtask_of=t['group'], has_subtask=(t['kind'] == 'group'),
+                        **task_kwargs(t, root, log, spec.get('lookups'))))
     return res
 
 
-def build_B_namespace(spec, root, log, config):
+def build_B_namespace(spec, root, log, config, live=False):
     def task_gen():
+        if live:                                           # load-time code of the dodo file
+            lookup_now(log, None, 0, spec.get('pre') or [])
         for n in spec['order']:
             t = spec['tasks'][n]
-            d = task_kwargs(t, root, log)
+            d = task_kwargs(t, root, log, spec.get('lookups'))
             d['actions'] = None
             if t['kind'] == 'plain':
                 d['basename'] = n
@@ -294,20 +390,37 @@ def db_class(backend):
     return {'json': JsonDB, 'dbm': DbmDB, 'sqlite3': SqliteDB}[backend]
 
 
-def db_fill(backend, path, names):
+def rec_names(spec):
+    """every name that can have a record, in the order used for the DB dumps"""
+    return list(spec['order']) + ['no-such-record', 'stale-record']
+
+
+def rec_value(spec, n):
+    """the number saved (as value 'v' and as result) for n by the run before the command"""
+    return 100 + rec_names(spec).index(n)
+
+
+def db_initial(spec):
+    """name -> number, the records in the DB file before the command"""
+    return {n: rec_value(spec, n) for n in rec_names(spec)
+            if n in spec['db'] or (n == 'stale-record' and spec['stale'])}
+
+
+def db_fill(backend, path, recs):
     from doit.dependency import Dependency
     dep = Dependency(db_class(backend), path)
-    for n in names:
-        dep._set(n, 'checker:', 'MD5Checker')
-        dep._set(n, '_values_:', {})
+    for n, k in recs.items():
+        for key, v in record_of(k).items():
+            dep._set(n, key, v)
     dep.close()
 
 
 def db_read(backend, path, names):
+    """-> name -> [values, result] of the records in the file (a fresh session)"""
     from doit.dependency import Dependency
     dep = Dependency(db_class(backend), path)
     try:
-        return [n for n in names if dep._in(n)]
+        return {n: [dep.get_values(n), dep.get_result(n)] for n in names if dep._in(n)}
     finally:
         dep.close()
 
@@ -343,9 +456,8 @@ def run_real(spec, casedir):
     dbfile = os.path.join(casedir, 'db')
     log = []
     make_fs(root, spec['fs'])
-    all_names = list(spec['order']) + (['stale-record'] if spec['stale'] else [])
-    db_before = list(spec['db']) + (['stale-record'] if spec['stale'] else [])
-    db_fill(spec['backend'], dbfile, db_before)
+    all_names = rec_names(spec)
+    db_fill(spec['backend'], dbfile, db_initial(spec))
     fl = spec['flags']
     code = 0
     if spec['mode'] == 'A':
@@ -354,12 +466,15 @@ def run_real(spec, casedir):
         from doit.dependency import Dependency
         ids, rows = read_table(build_A(spec, root, []))
         tasks = build_A(spec, root, log)
+        import doit
         with Patched(log) as pt:
             cmd = Clean(task_loader=ModuleTaskLoader({}))
             cmd.outstream = pt.out
             cmd.dep_manager = Dependency(db_class(spec['backend']), dbfile)
+            doit.Globals.dep_manager = cmd.dep_manager                  # cmd_base.py 557
             cmd.task_list = tasks
             cmd.sel_tasks = (list(spec['pos']) or spec['default'])      # cmd_base.py 534
+            lookup_now(log, None, 0, spec.get('pre') or [])             # the session so far
             try:
                 cmd._execute(dryrun=fl['dryrun'], cleandep=fl['cleandep'], cleanall=fl['cleanall'],
                              cleanforget=fl['forget'], pos_args=list(spec['pos']))
@@ -382,7 +497,7 @@ def run_real(spec, casedir):
         if spec['default'] is not None:
             config['default_tasks'] = list(spec['default'])
         ids, rows = read_table(doit_loader.load_tasks(build_B_namespace(spec, root, [], dict(config))))
-        ns = build_B_namespace(spec, root, log, config)
+        ns = build_B_namespace(spec, root, log, config, live=True)
         args = ['clean']
         if fl['dryrun']:
             args.append('-n' if len(spec['order']) % 2 else '--dry-run')
@@ -425,6 +540,11 @@ def encode_events(log, ids, root):
             ev += [1, ids[e[1]]]; ann[e[1]] = 0; cleaned.append(ids[e[1]])
         elif e[0] == 'exec':
             ev += [3, ids[e[1]], e[2], 2 if e[3] is None else int(bool(e[3]))]
+        elif e[0] == 'op':
+            if e[1] is None:
+                continue                                   # load-time: before the model's trace begins
+            f = op_found(e[4], e[5])
+            ev += [99] if f is None else [7, ids[e[1]], e[2], rec_id(ids, e[4][1]), int(f)]
         elif e[0] == 'line':
             m = RX_CMD.match(e[1])
             if m and m.group(1) in ids:
@@ -446,6 +566,32 @@ def encode_events(log, ids, root):
         else:
             ev += [99]
     return cleaned, ev
+
+
+def rec_id(ids, n):
+    return SPECIAL[n] if n in SPECIAL else ids[n]
+
+
+def rec_ids_sorted(ids, names):
+    return sorted((rec_id(ids, n) for n in names), key=lambda i: (i in SPECIAL.values(), i))
+
+
+def op_found(op, obs):
+    """did the look-up find a record?  None = it failed in a way no look-up may fail"""
+    if op[0] == 'value':
+        return obs[0] == 'ok'
+    if obs[0] != 'ok':
+        return None
+    return {'result': obs[1] is not None, 'values': bool(obs[1]), 'in': obs[1] is True}[op[0]]
+
+
+def db_at_start(spec):
+    """name -> number: the records when the command starts selecting = the file + what `pre` saved"""
+    m = db_initial(spec)
+    for op in spec.get('pre') or []:
+        if op[0] == 'set':
+            m[op[1]] = op[2]
+    return m
 
 
 def nl(xs):
@@ -486,9 +632,14 @@ def model_expr(spec, ids, rows):
     fl = spec['flags']
     opts = 'Build_opts N %s %s %s %s %s (%s)' % (b(fl['dryrun']), b(fl['cleandep']), b(fl['cleanall']), b(fl['forget']), pos, selt)
     fs = '[' + '; '.join('(%s, %s)' % (nl(p), 'KDir' if k == 'd' else 'KFile') for p, k in spec['fs']) + ']'
-    dbids = sorted(ids[n] for n in spec['db']) + ([STALE] if spec['stale'] else [])
+    dbids = rec_ids_sorted(ids, db_at_start(spec))
     w = '{| w_fs := %s; w_db := %s; w_ev := [] |}' % (fs, nl(dbids))
-    return 'enc_res (clean_execute N (fm %s) %s (%s) %s)' % (tab, tb, opts, w)
+    rd = []
+    for n, acts in sorted((spec.get('lookups') or {}).items()):
+        for i, reads in enumerate(acts):
+            if reads and n in ids:
+                rd.append('(%d%%N, %d%%nat, %s)' % (ids[n], i, nl([rec_id(ids, op[1]) for op in reads])))
+    return 'enc_res (clean_execute_rd N (fm %s) (rdf [%s]) %s (%s) %s)' % (tab, '; '.join(rd), tb, opts, w)
 
 
 # ------------------------------------------------------------------ independent oracle for the property
@@ -555,6 +706,51 @@ def acyclic(rows, ids):
     return all(visit(x) for x in byid)
 
 
+def lookup_oracle(spec, log):
+    """every look-up (load-time and by clean actions) returned what is saved at that moment: replay of the
+    declared operations on a plain dict, forgetting (--forget, no --dry-run) the record of a task when
+    the next Task.clean is entered / at the end"""
+    bad = []
+    fl = spec['flags']
+    forget = fl['forget'] and not fl['dryrun']
+    m = dict(db_initial(spec))
+    current = None
+    for e in log:
+        if e[0] == 'clean':
+            if forget and current is not None:
+                m.pop(current, None)
+            current = e[1]
+        elif e[0] == 'op':
+            op, obs = e[4], e[5]
+            if op[0] == 'set':
+                m[op[1]] = op[2]
+                if obs[0] != 'ok':
+                    bad.append(('lookup-value', 'saving a record for %s through Globals.dep_manager failed: %s' % (op[1], obs[1])))
+                continue
+            k = m.get(op[1])
+            if op[0] == 'value':
+                ok = (obs == ['ok', k]) if k is not None else (obs[0] == 'exc' and 'has no computed value' in obs[1])
+                exp = k if k is not None else 'Exception(... has no computed value!)'
+            else:
+                exp = {'result': None if k is None else {'r': k}, 'values': {} if k is None else {'v': k},
+                       'in': k is not None}[op[0]]
+                ok = obs == ['ok', exp]
+            if not ok:
+                who = 'load-time code' if e[1] is None else 'clean action %d of %s' % (e[2], e[1])
+                bad.append(('lookup-value', '%s asked dep_manager for %s of %s and got %s, saved at that moment: %s' % (
+                    who, op[0], op[1], obs, exp)))
+    return bad
+
+
+def forget_note(spec, log, names):
+    """how the session had touched the records that are wrong (for the report)"""
+    how = []
+    for n in sorted(names):
+        ops = sorted(set(e[4][0] for e in log if e[0] == 'op' and e[4][1] == n))
+        how.append('%s: %s' % (n, '+'.join(ops) if ops else 'untouched'))
+    return ' (%s; backend %s)' % (', '.join(how), spec['backend'])
+
+
 def oracle(spec, ids, rows, code, log, fs_after, db_after, root):
     """-> list of (shape, sentence)"""
     bad = []
@@ -562,13 +758,18 @@ def oracle(spec, ids, rows, code, log, fs_after, db_after, root):
     byid = {ids[r['name']]: r for r in rows}
     idname = {v: k for k, v in ids.items()}
     fs_before = sorted((tuple(p), k) for p, k in spec['fs'])
-    db_before = [n for n in list(spec['order']) + ['stale-record'] if n in spec['db'] or (n == 'stale-record' and spec['stale'])]
+    saved = set(op[1] for op in spec.get('pre') or [] if op[0] == 'set')      # records the session itself saved
+    recs_before = {n: [{'v': k}, {'r': k}] for n, k in db_initial(spec).items()}
+    recs_start = {n: [{'v': k}, {'r': k}] for n, k in db_at_start(spec).items()}
     want_code, want, withdeps = reference_selection(spec, rows, ids)
     cleaned = [ids[e[1]] for e in log if e[0] == 'clean']
+    bad += lookup_oracle(spec, log)
     if code in (96, 97):
         if code != want_code:
             bad.append(('error-kind', 'command failed with %d, reference says %d' % (code, want_code)))
-        if cleaned or fs_after != fs_before or db_after != db_before:
+        # whether what `pre` saved reaches the file when the command fails is not C14's business
+        drop = lambda d: {n: r for n, r in d.items() if n not in saved}
+        if cleaned or fs_after != fs_before or drop(db_after) != drop(recs_before):
             bad.append(('error-not-clean', 'a failing clean command cleaned tasks or changed files/DB'))
         return bad
     if code != 0:
@@ -589,14 +790,22 @@ def oracle(spec, ids, rows, code, log, fs_after, db_after, root):
                     bad.append(('order', '%s cleaned before %s which depends on it' % (idname[d], idname[t])))
     # dry-run / forget
     if fl['dryrun']:
-        if fs_after != fs_before or db_after != db_before:
+        if fs_after != fs_before or db_after != recs_before:
             bad.append(('dryrun-frame', '--dry-run changed files or the DB'))
         if any(e[0] == 'exec' and e[3] is not True for e in log):
             bad.append(('dryrun-exec', '--dry-run executed a clean action that has no dryrun parameter'))
     else:
-        want_db = [n for n in db_before if not (fl['forget'] and ids.get(n) in set(cleaned))]
-        if db_after != want_db:
-            bad.append(('forget-exact', 'DB records after clean %s, expected %s' % (db_after, want_db)))
+        # from the declared inputs only: the records at the start, minus (--forget) those of the tasks the
+        # selection rules say are cleaned; whatever was looked up, by whom, and however the record got there
+        gone = set(idname[i] for i in want) if fl['forget'] else set()
+        want_db = {n: r for n, r in recs_start.items() if n not in gone}
+        if sorted(db_after) != sorted(want_db):
+            bad.append(('forget-exact', 'DB records after clean %s, expected %s%s' % (
+                sorted(db_after), sorted(want_db), forget_note(spec, log, set(db_after) ^ set(want_db)))))
+        elif db_after != want_db:
+            diff = sorted(n for n in want_db if db_after[n] != want_db[n])
+            bad.append(('db-content', 'saved state of %s changed by clean: %s, expected %s' % (
+                diff, [db_after[n] for n in diff], [want_db[n] for n in diff])))
     # actions of the cleaned tasks: announced in order, executed
     for t in set(cleaned):
         sp = spec['tasks'].get(idname[t])
@@ -681,6 +890,24 @@ def fixed_specs():
         for mode in 'AB':
             specs.append(dict(mode=mode, order=['a', 'b'], tasks=nest, fs=fs, pos=[], default=None, flags=flags,
                               db=['a', 'b'], stale=False, backend='sqlite3'))
+    # the DB session: doc/globals.rst (a clean action looks up what its task saved) + `clean --forget`;
+    # a dependency looks up the record of its (already cleaned) dependent; load-time look-ups and saves
+    look = dict(create=t('create'), plain=t('plain', setup=['create']), other=t('other', clean='act_dry'))
+    for backend in ('dbm', 'json', 'sqlite3'):
+        for mode in 'AB':
+            for pos, fl, lookups, pre in [
+                    (['create', 'plain'], dict(forget=True), dict(create=[[['result', 'create']]]), []),
+                    (['plain'], dict(forget=True, cleandep=True),
+                     dict(create=[[['value', 'plain'], ['values', 'create'], ['in', 'other']]], plain=[[['result', 'other']]]), []),
+                    (['other'], dict(forget=True), {}, [['values', 'other'], ['result', 'plain']]),
+                    (['create', 'other'], dict(forget=True), dict(other=[[['in', 'create']]]),
+                     [['set', 'create', 1001], ['set', 'no-such-record', 1002], ['set', 'plain', 1003]]),
+                    ([], dict(forget=True, dryrun=True), dict(other=[[['result', 'other'], ['value', 'plain']]]), [['in', 'plain']])]:
+                flags = dict(dryrun=False, cleandep=False, cleanall=False, forget=False)
+                flags.update(fl)
+                specs.append(dict(mode=mode, order=['create', 'plain', 'other'], tasks=look, fs=[], pos=pos, default=None,
+                                  flags=flags, db=['create', 'plain', 'other'], stale=True, backend=backend,
+                                  lookups=lookups, pre=pre))
     return specs
 
 
@@ -690,6 +917,47 @@ def shape_of(spec, code, cleaned):
     return '%s|n%d|pos%d|def%s|%s|code%d|cleaned%d' % (
         spec['mode'], len(spec['order']), len(spec['pos']), 'N' if spec['default'] is None else len(spec['default']),
         ''.join(k[0] if k != 'cleanall' else 'a' for k in ('dryrun', 'cleandep', 'cleanall', 'forget') if fl[k]) or '-', code, len(cleaned))
+
+
+def session_counts(out, spec, log, cleaned, ids):
+    """input distribution of the DB-session dimension; non-trivial = a record that --forget has to erase had
+    been touched by the session (looked up / saved) before, or a look-up came after the record was forgotten"""
+    fl = spec['flags']
+    forget = fl['forget'] and not fl['dryrun']
+    ops = [e for e in log if e[0] == 'op']
+    if not ops:
+        out.count('session:untouched')
+        return
+    out.count('session:load-time-ops' if any(e[1] is None for e in ops) else 'session:no-load-time-ops')
+    if any(e[1] is not None for e in ops):
+        out.count('session:look-ups-by-clean-actions')
+    if any(e[4][0] == 'set' for e in ops):
+        out.count('session:saves')
+    idname = {v: k for k, v in ids.items()}
+    cl = [idname[c] for c in cleaned]
+    start = db_at_start(spec)
+    state, entered, late = {}, [], False
+    for e in log:
+        if e[0] == 'clean':
+            entered.append(e[1])
+        elif e[0] == 'op':
+            u = e[4][1]
+            if u in entered[:-1] and u != e[1] and u in start:
+                late = True
+            elif e[4][0] == 'set':
+                state[u] = 'saved-over' if u in db_initial(spec) else 'saved-new'
+            elif u in start and u not in state:
+                state[u] = 'looked-up'
+    kinds = set(state[u] for u in cl if u in state and u in start) if forget else set()
+    for k in sorted(kinds):
+        out.count('forgotten-record:' + k)
+    if forget and any(u in start and u not in state for u in cl):
+        out.count('forgotten-record:untouched')
+    if forget and late:
+        out.count('session:look-up-after-forget')
+    if kinds or (forget and late):
+        out.nontrivial.add(('session', spec['mode'], spec['backend'], tuple(spec['order']), tuple(spec['pos']),
+                            tuple(sorted(fl.items())), json.dumps([spec.get('pre'), spec.get('lookups')], sort_keys=True)))
 
 
 def run_case(ctx, out, spec, idx, cases):
@@ -702,8 +970,7 @@ def run_case(ctx, out, spec, idx, cases):
         pass
     cleaned, ev = encode_events(log, ids, root)
     if code == 0:
-        dbz = [STALE if n == 'stale-record' else ids[n] for n in db_after]
-        dbz = sorted(x for x in dbz if x != STALE) + [x for x in dbz if x == STALE]
+        dbz = rec_ids_sorted(ids, db_after)
         fsz = []
         for p, k in fs_after:
             fsz += [1 if k == 'd' else 0] + list(p) + [-2]
@@ -720,6 +987,7 @@ def run_case(ctx, out, spec, idx, cases):
             out.count('flag:' + k)
     out.count('outcome:%s' % {0: 'ok', 96: 'InvalidCommand', 97: 'KeyError'}.get(code, 'crash'))
     out.count('backend:' + spec['backend'])
+    session_counts(out, spec, log, cleaned, ids)
     if not acyclic(rows, ids):
         out.count('graph:cyclic')
     if any('*' in x for x in spec['pos'] + (spec['default'] or [])):
@@ -741,12 +1009,22 @@ def run(ctx):
     out.rule = ('fixed: 17 configurations on the table of tests/test_cmd_clean.py (its 13 cases + unknown/empty default_tasks, sub-task named before its group, dry-run+forget) + 6 nested-target cases; random: task tables of 2..11 tasks '
                 '(plain, groups with sub-tasks, task_dep/setup/wild-card/implicit deps, duplicates, 7% with a cycle) x positional names/'
                 'patterns x default_tasks x --clean-dep/--clean-all/--dry-run/--forget x fs pre-state x DB backend, through Clean._execute (A) '
-                'and DoitMain.run (B).  non-trivial = distinct case with >= 3 tasks where >= 2 tasks were cleaned or the command failed')
+                'and DoitMain.run (B).  DB session: in half of those cases python clean actions look up (get_result / get_values / get_value / _in '
+                'through doit.Globals.dep_manager) the saved state of their own task, of other tasks and of names without a task, and in a third '
+                'load-time code looks up / saves records first; + 30 fixed session cases (3 backends x A/B x 5) + a dense part (mostly --forget, '
+                'most tasks with looking-up clean actions) run on each of the three backends.  non-trivial = distinct case with >= 3 tasks where '
+                '>= 2 tasks were cleaned or the command failed; or distinct session case where a record --forget has to erase had been looked up '
+                'or saved in the same session, or a look-up came after its record was forgotten')
     cases = []
     specs = fixed_specs()
     n = ctx.n(320, 3000)
     for i in range(n):
         specs.append(gen_case(ctx.rng, 'A' if i % 3 else 'B'))
+    # the DB session in depth: the same table / selection / session on each of the three backends
+    for i in range(ctx.n(40, 1200)):
+        spec = gen_case(ctx.rng, 'B' if i % 3 else 'A', dense=True)
+        for backend in ('dbm', 'json', 'sqlite3'):
+            specs.append(dict(spec, backend=backend))
     for idx, spec in enumerate(specs):
         code, cleaned, ids = run_case(ctx, out, spec, idx, cases)
         if idx in (1, 20, len(specs) - 1):
@@ -765,7 +1043,8 @@ def run(ctx):
         'file system = regular files and directories; symlinks, permissions, concurrent changes and failing os.remove/os.rmdir are outside the model',
         'target strings are compared by Python as component lists are by the model (fixed-width alphanumeric components); '
         'C14_clean_targets_children_first only needs: a path sorts before everything inside it, true for any strings where the directory is a string prefix',
-        'what a user clean-action does to files is not modelled (only that/when it is invoked, and with which dryrun flag)',
+        'what a user clean-action does to files is not modelled (only that/when it is invoked, and with which dryrun flag); '
+        'its look-ups in the DB are modelled (found / not found); the values they return and saves by load-time code are judged by the oracle only',
         'Python recursion limit (a dependency chain > ~1000 tasks) not modelled: fuel is proved adequate instead',
     ]
     out.extra['trusted_base'] = ['harness/c14.py: reading the table from the real Task objects, parsing of the clean messages, fs/DB snapshots']
